@@ -306,7 +306,8 @@ void vh_note(const char *fmt, ...) {
 #include <signal.h>
 
 int vh_nofork = 0;
-int vh_npass = 1, vh_pass = 1;
+int vh_npass = 1;
+__thread int vh_pass = 1;
 int vh_leakcheck = 0;
 #if __M4RI_ENABLE_MMC
 extern mmb_t m4ri_mmc_cache[];
